@@ -151,8 +151,11 @@ PROPS["C14"] = dict(
           "and 'hash' steps drive a second string to equal content through a detour that leaves different stale bytes, or rebuild the content in other layouts/capacities, and require equal hashes. "
           "(ii) pure half, evaluated on simulated buffers only: hash_bytes/murmur2_x86/murmur2_x64 on the model bytes copied into exact-size heap blocks at alignments 0..7 and in place in the arena, "
           "seeds from the plan, against an independently written reference (counter c14.byte_hash_evaluations). "
+          "(iii) concurrent callers (harness hashmt, ThreadSanitizer build): every step releases three caller threads at once, each hashing its own seeded keys "
+          "(0 to 4200 bytes, every alignment) and one key all of them read, with the three byte hashes and std::hash of a fixed string; every value is compared with the reference, "
+          "and because the callers share no happens-before edge any state shared between calls is a reported data race independent of the kernel's schedule (counter c14.concurrent_hash_evaluations). "
           "Non-trivial: at least two state-changing steps. Distinct: distinct run digests (include every hash value)."),
-    probes=["hash_with_stale_bytes", "hash_cross_layout", "hash_whole_blocks", "hash_four_blocks_or_more", "hash_of_long_key", "hash_of_null_empty_key"],
+    probes=["hash_with_stale_bytes", "hash_cross_layout", "hash_whole_blocks", "hash_four_blocks_or_more", "hash_of_long_key", "hash_of_null_empty_key", "three_callers_hashed_at_once"],
     components=_FS_COMPONENTS, assumptions=_FS_ASSUME + ["std::hash<xbasic_fixed_string<char16_t>> hashes size() bytes, i.e. half the characters; that is a deterministic function of size() and the characters, so only cross-history equality is required for char16_t"],
 )
 
@@ -402,7 +405,7 @@ MANIFEST_TEXT = {
         technique="deterministic simulation (degenerate: seeded walker histories against an index model, no fault dimension)",
     ),
     "C14": dict(
-        text="hash coherence across simulated histories: std::hash of every fixed string equals the reference MurmurHash64A of its characters after every step, equal contents reached by different histories (different stale bytes), in different layouts and capacities hash equally; the byte hashes are additionally evaluated on the buffers the simulation produces (also keys of several kilobytes and the empty key given as a null pointer) at every alignment in exact-size blocks against an independent reference (that half is evaluation of a pure function on simulated states and is reported under its own counter)",
+        text="hash coherence across simulated histories: std::hash of every fixed string equals the reference MurmurHash64A of its characters after every step, equal contents reached by different histories (different stale bytes), in different layouts and capacities hash equally; the byte hashes are additionally evaluated on the buffers the simulation produces (also keys of several kilobytes and the empty key given as a null pointer) at every alignment in exact-size blocks against an independent reference (that half is evaluation of a pure function on simulated states and is reported under its own counter); three real caller threads hash at once under ThreadSanitizer, so that state shared between calls shows as a data race whatever the schedule",
         design_ref="4.9",
         note="the pure half is sampled evaluation of a pure function, not more; little-endian 64-bit platform only",
         technique="deterministic simulation: hash invariants over seeded histories, placement/alignment/stale-byte variation, independent reference implementation",
